@@ -457,3 +457,65 @@ def accounting(h):
     h.check('per-member-best-energy-and-solution-are-the-members-own', ' and '.join(conj_b), **env)
     h.check('total-evaluations-is-the-sum-over-members', 's._total_evals == ' + (' + '.join('m%d.evaluations' % i for i in live) or '0'), **env)
     h.check('total-generations-is-the-sum-over-members', 's._total_iters == ' + (' + '.join('m%d.generations' % i for i in live) or '0'), **env)
+
+
+@contract('C05/ensemble.Terminated', ['C05', 'C09'], ENS + '.Terminated', native=False)
+def ensemble_terminated(h):
+    """the ensemble override: with all=None (what Step / Solve ask) the ensemble is NOT terminated while any member is
+    still running or any slot is empty; once every member has stopped the verdict is the best member's (limits first,
+    then the exit request, then its termination condition) and the message names a condition that is true of that
+    member; with all=True one verdict per member"""
+    if not h.is_sym():
+        h.unsupported('symbolic only')
+    from pyvc.values import SStr
+    mode = h.choice('all', ['None', 'True', 'False'])
+    info = h.choice('info', [False, True])
+    k = 2
+    hole = h.choice('one_slot_still_empty', [False, True])
+    running = [h.bool('member_%d_terminated' % i) for i in range(k)]
+    asked = []
+    members = []
+    for i in range(k):
+        if hole and i == 1:
+            members.append(None)
+            continue
+        def term(H, I, args, kwargs, i=i):
+            asked.append(i)
+            inf = kwargs.get('info', args[1] if len(args) > 1 else False)
+            return (SStr('member-%d-message' % i) if I.st.branch(H.I.truth_term(running[i])) else '') if inf else running[i]
+        members.append(h.obj(None, Terminated=h.fn('MEMBER_TERMINATED_%d' % i, sym=term)))
+    fc, mf, mi, gens = h.int('best_evaluations'), h.int('best_maxfun'), h.int('best_maxiter'), h.int('best_generations')
+    h.assume('fc >= 0 and gens >= 0 and mf >= 0 and mi >= 0', fc=fc, gens=gens, mf=mf, mi=mi)
+    early = h.bool('best_exit_requested')
+    tb = h.bool('best_termination_condition_holds')
+
+    def best_term(H, I, args, kwargs):
+        return SStr('best-termination-message') if I.st.branch(H.I.truth_term(tb)) else ''
+    best = h.obj(None, _termination=h.fn('BEST_TERMINATION', sym=best_term), _fcalls=h.clist([fc]), _maxfun=mf, _maxiter=mi,
+                 generations=gens, _EARLYEXIT=early, bestEnergy=h.real('bestE'))
+    s = h.obj(ENS, _allSolvers=h.clist(members), _bestSolver=best, _termination=None, _total_evals=0)
+    h.set_summaries({(E, 'AbstractEnsembleSolver.__update_state'): lambda I, c, a, kk: None,
+                     ('mystic/abstract_solver.py', 'AbstractSolver._SetEvaluationLimits'): lambda I, c, a, kk: None})
+    allv = {'None': None, 'True': True, 'False': False}[mode]
+    r = h.call(h.getattr(s, 'Terminated'), False, info, None, allv)
+    live = [i for i, m in enumerate(members) if m is not None]
+    if mode == 'True':
+        h.check('one-verdict-per-member-empty-slots-not-terminated', 'ok',
+                ok=(len(h.st.heap[r]) == k and all((h.st.heap[r][i] in ('', False)) for i in range(k) if members[i] is None)))
+        return
+    env = dict(r=r, fc=fc, mf=mf, mi=mi, gens=gens, early=early, tb=tb, **{'t%d' % i: running[i] for i in range(k)})
+    everyone = ' and '.join('t%d' % i for i in live) if not hole else 'False'
+    stop_best = '(fc >= mf or gens >= mi or early or tb)'
+    if mode == 'None':
+        h.check('not-terminated-while-a-member-runs-or-a-slot-is-empty', 'implies(not (%s), not truthy(r))' % everyone, **env)
+        h.check('once-all-members-stopped-the-verdict-is-the-best-members', 'implies(%s, iff(truthy(r), %s))' % (everyone, stop_best), **env)
+    else:
+        h.check('verdict-is-the-best-members', 'iff(truthy(r), %s)' % stop_best, **env)
+    if info:
+        kind = 'lim' if (isinstance(r, SStr) and r.parts and 'EvaluationLimits' in str(r.parts[0])) else \
+               'sig' if (isinstance(r, SStr) and r.parts and 'SolverInterrupt' in str(r.parts[0])) else \
+               'term' if isinstance(r, SStr) else 'none'
+        h.check('message-names-a-condition-true-of-the-best-member',
+                "implies(kind == 'lim', fc >= mf or gens >= mi) and implies(kind == 'sig', early) and implies(kind == 'term', tb)", kind=kind, **env)
+    else:
+        h.check('result-is-bool', 'r is True or r is False', r=r)
